@@ -310,6 +310,11 @@ def variants(tier, faults, phase, rng):
         for br in ("then", "else", "off"):
             out.append(("if", dict(k=k, where=2 if br != "then" else 1, style=st(), branch=br)))
         out.append(("ifinc", dict(k=k, where=2, style=st())))
+    # a #line directive in conditional text: ignored unless the text is being read (every #if state of Include.tla)
+    for br in ("formerly", "nested", "inactive", "active", "elseon"):
+        out.append(("ifline", dict(k=0 if br != "active" else kq[0], where=2, style=st(), branch=br, n=500, fname="skipped.src")))
+        if tier == "thorough":
+            out.append(("ifline", dict(k=2, where=2, style=st(), branch=br, n=70001, fname="")))
         out.append(("incline", dict(k=k, where=1, style=st(), n=300, fname="gen.src")))
         out.append(("incline", dict(k=k, where=2, style=st(), n=7, fname="")))
     if len(faults) > 1 and phase == "sem":
